@@ -46,7 +46,7 @@ def reachable(F, entries):
     lib = F.lib()
     # methods of non-derived impls of foreign traits on local types are called back by dependencies (dot::render, clap, fmt)
     for f in list(lib.fns.values()) + list(F.bin().fns.values()):
-        if f.get('impl_trait') and not f.get('derived'):
+        if f.get('impl_trait') and not f.get('derived') and not canon(f['impl_trait']).startswith('rsbdd'):
             work.append(canon(f['def']))
     while work:
         n = work.pop()
@@ -108,6 +108,16 @@ def inventory(F, reach):
                     what = PANIC_TRAIT_DECLS[decl] + ' on ' + (res.split(' as ')[0].lstrip('<') if ' as ' in res else (res or 'generic'))
                 if what is None and decl == 'std::iter::Iterator::sum' and 'Duration' in str(t.get('callee', {}).get('gargs')):
                     what = 'Iterator::sum<Duration>'
+                if what is None and decl in ('std::iter::Iterator::sum', 'std::iter::Iterator::product'):
+                    g = str(t.get('callee', {}).get('gargs'))
+                    if any(("'s': '%s'" % ity) in g for ity in ('usize', 'u64', 'u32', 'u16', 'u8', 'isize', 'i64', 'i32', 'i16', 'i8')):
+                        what = 'Iterator::%s of integers (overflow check inherited from the caller)' % decl.split('::')[-1]
+                # arithmetic through the operator traits on (references to) integers: the overflow check is inherited, no MIR Assert appears
+                m_ = re.match(r'<&?(?:mut )?(usize|u64|u32|u16|u8|isize|i64|i32|i16|i8) as std::ops::(Add|Sub|Mul|Div|Rem|Shl|Shr|Neg|AddAssign|SubAssign|MulAssign|DivAssign|RemAssign)>::', res)
+                if what is None and m_:
+                    what = 'Overflow(%s) via operator trait on %s' % (m_.group(2).replace('Assign', ''), m_.group(1))
+                if what is None and re.match(r'core::num::<impl (usize|u64|u32|u16|u8|isize|i64|i32|i16|i8)>::(pow|abs|next_power_of_two|div_euclid|rem_euclid|ilog2|ilog10|ilog|isqrt)$', res):
+                    what = 'integer ' + res.split('::')[-1]
                 if what is not None:
                     s = Site(n, 'call', what, t['loc'], bi, t, body, c)
             if s is not None:
